@@ -193,6 +193,29 @@ def run(R):
             special.append(chain_)
     if R.tier == 'quick':
         special = special[::2] if R.seed % 2 else special[1::2] + special[:8]
+    # a rule of the parent nested so deeply that the generator moves part of it into helper functions: the references and
+    # literals in there are late-bound like everywhere else (the child's override, the child's ignore patterns)
+    def nest(k, inner):
+        e = inner
+        for _ in range(k):
+            e = '("<" >> (' + e + ')* << ">")'
+        return e
+    deep_special = []
+    for k in (3, 6, 8, 11):
+        base = Level('a', {'start': 'Deep', 'Deep': nest(k, 'Item | "-"'), 'Item': '/[a-z]/'})
+        deep_special.append(([base, Level('b', {'Item': '/[0-9]/ | "!"'}, parent=base)], k))
+        base = Level('a', {'start': 'Deep', 'Deep': nest(k, 'Item | "-"'), 'Item': '/[a-z]/'})
+        mid = Level('b', {'Nb': 'Item'}, parent=base)
+        deep_special.append(([base, mid, Level('c', {'Item': '"<" >> super.Item << ">" | /[0-9]/'}, parent=mid)], k))
+        base = Level('a', {'start': 'Deep', 'Deep': nest(k, 'Item | "-"'), 'Item': '/[a-z]/'}, ignore='ignore " "')
+        deep_special.append(([base, Level('b', {'Item': '/[0-9]/'}, 'ignore ","', parent=base)], k))
+    TXD = {}
+    for k in (3, 6, 8, 11):
+        o, c = '<' * k, '>' * k
+        TXD[k] = [o + c, o + 'a' + c, o + '1' + c, o + '-' + c, o + 'a1' + c, o + '!' + c, o + '<1>' + c, o + ' 1 , 2' + c, o + '1,-' + c, o + 'a' + c[:-1],
+                  o[:-1] + '1' + c[:-1], o + '1' + c + 'x', '', o + ', 1' + c, '<' * (k - 1) + '<1><2>' + '>' * (k - 1)]
+    special = special + [ch for ch, _ in deep_special]
+    deep_depth = {id(ch): k for ch, k in deep_special}
     TXM = ['', '<ab><cd', '<ab', '<ab>', '<ab;', '<<;', '<', 'ab;', 'ab;cd;', '<ab>,<cd', '<ab>+<cd', '<ab>!', '<ab;<', '<<!', '<<', '<ab>,<cd>', '<ab>+<cd>',
            '<ab><cd>', 'ab', '<ab!', '<;', '<<;<', '<ab;,<cd', '<ab;+<cd', '<ab;!', 'ab;<', '<ab;<cd;', '<ab;<cd']
     for uid in range(n + len(special)):
@@ -203,7 +226,10 @@ def run(R):
         else:
             levels = special[uid - n]
             depth = len(levels)
-            ENTRIES, TXE, TXU = [None, 'Body', 'Item', 'Other'], TXM, TXM
+            if id(levels) in deep_depth:
+                ENTRIES, TXE, TXU = [None, 'Deep', 'Item'], TXD[deep_depth[id(levels)]], TXD[deep_depth[id(levels)]]
+            else:
+                ENTRIES, TXE, TXU = [None, 'Body', 'Item', 'Other'], TXM, TXM
         if uid % 7 == 3:
             for lv in levels:
                 lv.dotted = True             # qualified grammar names (packages)
